@@ -13,7 +13,7 @@ Explicit casts in the *matched expression* are transparent.  A local with exactl
 at that position is not a plain name / wildcard.
 """
 import re
-from facts import walk, strip, show
+from facts import walk, strip, show, callee_name
 
 TOK = re.compile(r"\s*(?:(\d+)|(\"(?:[^\"\\]|\\.)*\")|(\$?[A-Za-z_][A-Za-z_0-9]*|@[a-z]+)|(->|\.\.\.|==|!=|<=|>=|&&|\|\||\+=|-=|\+\+|--|[-+*/%<>=!&|().,\[\]~^]))")
 
@@ -294,7 +294,7 @@ class M:
                 return False
             callee, args, rest = p[1], p[2], p[3]
             if callee[0] == "name":
-                if e.get("fn") != callee[1]:
+                if callee_name(e) != callee[1]:
                     return False
             elif callee[0] == "any":
                 pass
